@@ -426,75 +426,117 @@ func runC15(c *Ctx) {
 		// flow (ii): typing `v.` then completion with trigger '.'
 		ver := 1
 		base := files[w.UseFile]
-		for _, v := range w.Vars {
-			typed := base + v.Name + v.Access + "."
-			ver++
-			srv.DidChangeFull(useURI, ver, typed)
-			pos := posAt([]byte(typed), len(typed))
-			items, _, err := srv.Completion(useURI, pos.Line, pos.Character, 2, ".")
-			if err != nil {
-				c.Report("server-down-on-member-query|"+v.Via, fmt.Sprintf("the server died on member completion of %s (%s)", v.Name, v.TypeStr), witness(nil))
-				return
-			}
-			c.Count("member_completion_queries", 1)
-			if v.Class == "" {
-				continue
-			}
-			fields, extra := w.members(v.Class)
-			labels := map[string]bool{}
-			for _, it := range items {
-				if labels[it.Label] {
-					c.Report("member-completion|"+v.Via+"|label-offered-twice", fmt.Sprintf("completion after %s%s. (type %s) offers %s twice", v.Name, v.Access, v.TypeStr, it.Label), witness(nil))
+		phase := ""
+		dead := false
+		completionFlow := func() {
+			for _, v := range w.Vars {
+				typed := base + v.Name + v.Access + "."
+				ver++
+				srv.DidChangeFull(useURI, ver, typed)
+				pos := posAt([]byte(typed), len(typed))
+				items, _, err := srv.Completion(useURI, pos.Line, pos.Character, 2, ".")
+				if err != nil {
+					c.Report("server-down-on-member-query|"+v.Via, fmt.Sprintf("the server died on member completion of %s (%s)", v.Name, v.TypeStr), witness(nil))
+					dead = true
+					return
 				}
-				labels[it.Label] = true
-			}
-			c.Distinct(fmt.Sprint(files, v.Name))
-			var missing, surplus []string
-			for f := range fields {
-				if !labels[f] {
-					missing = append(missing, f)
+				c.Count("member_completion_queries", 1)
+				if v.Class == "" {
+					continue
 				}
-			}
-			for e := range extra {
-				if !labels[e] {
-					missing = append(missing, e)
+				if w.Classes[v.Class] == nil {
+					c.Count("dont_care_variable_of_a_class_whose_file_was_deleted", 1)
+					continue
 				}
-			}
-			for l := range labels {
-				if _, ok := fields[l]; !ok && !extra[l] {
-					surplus = append(surplus, l)
+				fields, extra := w.members(v.Class)
+				labels := map[string]bool{}
+				for _, it := range items {
+					if labels[it.Label] {
+						c.Report("member-completion|"+v.Via+"|label-offered-twice", fmt.Sprintf("completion after %s%s. (type %s) offers %s twice", v.Name, v.Access, v.TypeStr, it.Label), witness(nil))
+					}
+					labels[it.Label] = true
 				}
-			}
-			sort.Strings(missing)
-			sort.Strings(surplus)
-			cyclic := w.Cyclic[v.Class]
-			if len(missing) > 0 || (len(surplus) > 0 && !cyclic) {
-				kind := "missing"
-				if len(missing) == 0 {
-					kind = "surplus"
-				} else if len(surplus) > 0 {
-					kind = "missing+surplus"
-				}
-				onlyExtraMissing := len(missing) > 0
-				for _, m := range missing {
-					if !extra[m] {
-						onlyExtraMissing = false
+				c.Distinct(fmt.Sprint(files, v.Name))
+				var missing, surplus []string
+				for f := range fields {
+					if !labels[f] {
+						missing = append(missing, f)
 					}
 				}
-				if onlyExtraMissing && kind == "missing" {
-					kind = "missing-assigned-members-only"
+				for e := range extra {
+					if !labels[e] {
+						missing = append(missing, e)
+					}
 				}
-				cy := ""
-				if cyclic {
-					cy = "|cyclic-graph"
+				for l := range labels {
+					if _, ok := fields[l]; !ok && !extra[l] {
+						surplus = append(surplus, l)
+					}
 				}
-				c.Report(fmt.Sprintf("member-completion|%s|%s%s", v.Via, kind, cy),
-					fmt.Sprintf("completion after %s%s. (type %s): missing %v, surplus %v", v.Name, v.Access, v.TypeStr, missing, surplus),
-					witness(map[string]interface{}{"var": v, "labels": sortedBoolKeys(labels)}))
+				sort.Strings(missing)
+				sort.Strings(surplus)
+				cyclic := w.Cyclic[v.Class]
+				if len(missing) > 0 || (len(surplus) > 0 && !cyclic) {
+					kind := "missing"
+					if len(missing) == 0 {
+						kind = "surplus"
+					} else if len(surplus) > 0 {
+						kind = "missing+surplus"
+					}
+					onlyExtraMissing := len(missing) > 0
+					for _, m := range missing {
+						if !extra[m] {
+							onlyExtraMissing = false
+						}
+					}
+					if onlyExtraMissing && kind == "missing" {
+						kind = "missing-assigned-members-only"
+					}
+					cy := ""
+					if cyclic {
+						cy = "|cyclic-graph"
+					}
+					c.Report(fmt.Sprintf("member-completion|%s|%s%s%s", v.Via, kind, cy, phase),
+						fmt.Sprintf("completion after %s%s. (type %s)%s: missing %v, surplus %v", v.Name, v.Access, v.TypeStr, phase, missing, surplus),
+						witness(map[string]interface{}{"var": v, "labels": sortedBoolKeys(labels), "phase": phase}))
+				}
+			}
+			ver++
+			srv.DidChangeFull(useURI, ver, base)
+		}
+		completionFlow()
+		if dead {
+			return
+		}
+		// a file that declares classes is deleted on disk (the only event of its batch): what it declared is gone, for the
+		// variables of other classes too (inherited members)
+		if rd := r.Fork(0x64656c); rd.Chance(1, 3) {
+			var cands []string
+			for f := range w.Files {
+				if strings.HasPrefix(f, "types") {
+					cands = append(cands, f)
+				}
+			}
+			sort.Strings(cands)
+			if len(cands) > 1 {
+				victim := cands[rd.Intn(len(cands))]
+				ws.Delete(victim)
+				srv.Notify("workspace/didChangeWatchedFiles", map[string]interface{}{"changes": []interface{}{map[string]interface{}{"uri": ws.URI(victim), "type": 3}}})
+				if srv.Fence() != nil {
+					c.Report("server-down-on-annotation-graph", "the server died when a file declaring classes was deleted", witness(nil))
+					return
+				}
+				for nm, cl := range w.Classes {
+					if cl.File == victim {
+						delete(w.Classes, nm)
+					}
+				}
+				delete(files, victim)
+				phase = "|after-class-file-deleted"
+				c.Count("class_file_deletions", 1)
+				completionFlow()
 			}
 		}
-		ver++
-		srv.DidChangeFull(useURI, ver, base)
 		if wi < 2 {
 			c.Sample(map[string]interface{}{"files": files})
 		}
